@@ -2141,6 +2141,8 @@ class Engine:
             is_static = any(ast.unparse(d) == 'staticmethod' for d in getattr(node, 'decorator_list', []))
             if not is_static:
                 vals = [recv if recv is not None else Opaque('class:' + str(cls))] + vals
+        if len(vals) > len(params) or (not a.kwarg and any(k not in params for k in kwargs)):
+            raise PyRaise('TypeError')          # too many positional arguments / an unexpected keyword argument
         defaults = [None] * (len(params) - len(a.defaults)) + list(a.defaults)
         for i, p in enumerate(params):
             if i < len(vals):
